@@ -39,6 +39,7 @@ def lam_reward(i, c, a, rng=None):
 
 # ----------------------------------------------------------------------------- building
 def build_source(src, holder):
+    from coba.pipes import ListSource
     """Returns an Environments object; records caller-owned inputs in holder for the mutation check."""
     import coba as cb
     kind, kw = src
@@ -59,16 +60,16 @@ def build_source(src, holder):
     if kind == "supervised_csv":
         lines = list(kw["lines"])
         holder["lines"] = lines
-        return cb.Environments.from_supervised(cb.CsvSource(cb.ListSource(lines), has_header=True), label_col=kw["label_col"],
+        return cb.Environments.from_supervised(cb.CsvSource(ListSource(lines), has_header=True), label_col=kw["label_col"],
                                                label_type=kw.get("label_type"), take=kw.get("take"))
     if kind == "supervised_arff":
         lines = list(kw["lines"])
         holder["lines"] = lines
-        return cb.Environments.from_supervised(cb.ArffSource(cb.ListSource(lines)), label_col="kind", label_type="c")
+        return cb.Environments.from_supervised(cb.ArffSource(ListSource(lines)), label_col="kind", label_type="c")
     if kind == "supervised_libsvm":
         lines = list(kw["lines"])
         holder["lines"] = lines
-        return cb.Environments.from_supervised(cb.LibSvmSource(cb.ListSource(lines)), label_type="c")
+        return cb.Environments.from_supervised(cb.LibSvmSource(ListSource(lines)), label_type="c")
     if kind == "result":
         from coba.context import CobaContext, NullLogger
         old_logger = CobaContext.logger          # (the caller's logger/sink must survive this nested experiment)
@@ -335,6 +336,7 @@ class C04:
         except Exception as e:
             out.update(nontrivial=False, violation=None, violations=[])
             out["counters"]["discarded_unreadable_spec"] = 1
+            out["counters"][f"discarded.src.{cfg['src'][0]}"] = 1
             out["sample"] = None
             return out
         holder = {}
@@ -450,6 +452,12 @@ class C04:
                 shutil.rmtree(tmp, ignore_errors=True)
         out["nontrivial"] = read_after_abandon and len(R) > 0
         out["counters"]["interactions_in_reference"] = len(R)
+        # reach probes: which sources / filters / history operations were exercised by readable specs (a probe stuck at zero = a hole)
+        out["counters"][f"reach.src.{cfg['src'][0]}"] = 1
+        for o in {o[0] for o in cfg["ops"]}:
+            out["counters"][f"reach.filter.{o}"] = 1
+        for h in {h[0] for h in cfg["history"]}:
+            out["counters"][f"reach.op.{h}"] = 1
         vl = list(vios.values())
         out["violations"] = vl
         out["violation"] = vl[0] if vl else None
